@@ -26,9 +26,13 @@ pub fn alphabet(full: bool) -> Vec<DOp> {
             v.push(DOp::Deflate { flush, inn, room });
         }
     }
-    v.extend([DOp::Params(9, 0), DOp::Params(0, 2), DOp::Tune(4, 4, 8, 4), DOp::Prime(3, 5), DOp::Prime(16, 0xffff), DOp::SetDict(600), DOp::SetHeader(1), DOp::Pending, DOp::Reset, DOp::Copy, DOp::End]);
+    // output-limited calls whose room exceeds the smallest stored block (507 bytes at memLevel 1): the stored
+    // encoder then copies straight from the input into next_out, after whatever bits are left in the bit buffer
+    v.push(DOp::Deflate { flush: 0, inn: 2000, room: 600 });
+    v.push(DOp::Deflate { flush: 4, inn: 2000, room: 520 });
+    v.extend([DOp::Params(9, 0), DOp::Params(0, 2), DOp::Tune(4, 4, 8, 4), DOp::Prime(3, 5), DOp::Prime(6, 5), DOp::Prime(16, 0xffff), DOp::SetDict(600), DOp::SetHeader(1), DOp::Pending, DOp::Reset, DOp::Copy, DOp::End]);
     if full {
-        v.extend([DOp::Prime(32, -1), DOp::Prime(33, 0), DOp::Prime(-1, 0), DOp::SetDict(0), DOp::SetDict(3), DOp::SetHeader(0), DOp::Bound(1000), DOp::ResetKeep, DOp::CopyEndCopy, DOp::GetDict, DOp::Tune(0, 0, 0, 0), DOp::Tune(-1, 70000, 258, 65535)]);
+        v.extend([DOp::Prime(7, 0x55), DOp::Prime(32, -1), DOp::Prime(33, 0), DOp::Prime(-1, 0), DOp::SetDict(0), DOp::SetDict(3), DOp::SetHeader(0), DOp::Bound(1000), DOp::ResetKeep, DOp::CopyEndCopy, DOp::GetDict, DOp::Tune(0, 0, 0, 0), DOp::Tune(-1, 70000, 258, 65535)]);
     }
     v
 }
@@ -186,6 +190,9 @@ pub fn run(ctx: &mut Ctx) {
                             c.nontrivial();
                         }
                         let r = run_dops::<Rs>(level, method, wb, ml, st, ops, &env, true, true, tail_room, true, Some(c))?;
+                        if let Some(k) = r.f2_cut_at {
+                            c.soft_violation(format!("known hazard reached at op {k}: deflateResetKeep was called with unconsumed lookahead in the window and the stream is then switched to level 0; the continuation (not executed) never reaches Z_STREAM_END or aborts"));
+                        }
                         c.outcome(mix(hash_bytes(&r.total_out), r.obs.iter().fold(0u64, |h, o| mix(h, o.ret as u64))));
                         c.validated();
                         Ok(())
